@@ -1145,7 +1145,8 @@ heuristic_sampling_random_ideal_O0(quat_left_ideal_t *lideal, ibz_t *norm)
 }
 
 // function to sample a random left O0-ideal of given norm
-void
+// returns 0 (and leaves lideal untouched) when no generator of suitable norm was found
+int
 sampling_random_ideal_O0(quat_left_ideal_t *lideal, ibz_t *norm, int is_prime)
 {
 
@@ -1200,6 +1201,16 @@ sampling_random_ideal_O0(quat_left_ideal_t *lideal, ibz_t *norm, int is_prime)
         found = represent_integer(&gen, &n_temp, &QUATALG_PINFTY);
     }
 
+    if (!found) {
+        // gen is not set
+        ibz_finalize(&n_temp);
+        ibz_finalize(&disc);
+        quat_alg_elem_finalize(&gen);
+        quat_alg_elem_finalize(&gen_rerand);
+        ibq_finalize(&q_norm);
+        return 0;
+    }
+
 #ifndef NDEBUG
     assert(found);
     // first, we compute the norm of the gen
@@ -1231,4 +1242,5 @@ sampling_random_ideal_O0(quat_left_ideal_t *lideal, ibz_t *norm, int is_prime)
     quat_alg_elem_finalize(&gen);
     quat_alg_elem_finalize(&gen_rerand);
     ibq_finalize(&q_norm);
+    return 1;
 }
